@@ -3,6 +3,7 @@ package main
 import (
 	"fmt"
 	"go/types"
+	"regexp"
 	"sort"
 	"strings"
 
@@ -580,6 +581,20 @@ func VerifyLemma(p *Program, key string, k *Contract) *FuncResult {
 // assumeConstGlobals: package variables declared constglobal have their
 // declared value in every state (checked separately by ConstGlobalResult).
 func (e *Eval) assumeConstGlobals(pkg *ssa.Package, st *State) {
+	for _, ax := range e.p.cs.Axioms {
+		ex, err := ax.Parse()
+		if err != nil {
+			e.c.Unsupported("%v", err)
+			continue
+		}
+		env := e.newEnv(pkg, st, st)
+		// library globals named by axioms never change
+		for _, m := range regexp.MustCompile(`\b([a-z]+)\.([A-Z][A-Za-z0-9]*)\b`).FindAllStringSubmatch(ax.Text, -1) {
+			e.c.constComps["G."+m[1]+"."+m[2]] = true
+		}
+		e.c.Assert(env.evalBool(ex))
+		e.c.Assume("axiom: " + ax.Text)
+	}
 	if pkg == nil {
 		return
 	}
